@@ -43,6 +43,12 @@ def gen_case(rng, n_ev_files=None):
         f_ = {"header_case": rng.choice(["as_is", "lower", "upper"]), "rows": rows}
         if rng.random() < 0.2:
             f_["msms_layout"] = True        # an msms.txt-style file: the scan column is called "Scan number"
+        if rng.random() < 0.25:
+            # a SILAC search: the free column is MaxQuant's "Labeling state" (empty, 0, 1, and 2 for the third channel of a triple
+            # label; -1 / -2 / -3 are MaxQuant's "unknown" codes) - for Andromeda-style identifiers it plays no part in the matching
+            f_["labeling"] = True
+            for row in rows:
+                row[-1] = rng.choice(["", "0", "1", "2", "-1", "1", "2"])
         if rng.random() < 0.3:
             # another column layout (a different MaxQuant version): the tool warns and goes on; score and PEP are located per file
             perm = list(range(len(EV_COLS)))
@@ -79,6 +85,8 @@ def write_inputs(case, d):
             w = csv.writer(fh, delimiter="\t")
             perm = f.get("perm") or list(range(len(EV_COLS)))
             names = ["Scan number" if (c == "MS/MS scan number" and f.get("msms_layout")) else c for c in EV_COLS]
+            if f.get("labeling"):
+                names[-1] = "Labeling state"
             w.writerow([_case(names[k], f["header_case"]) for k in perm])
             for r in f["rows"]:
                 w.writerow([r[k] for k in perm])
